@@ -147,5 +147,38 @@ pub open spec fn signed_by(mb: Metablock, key: PublicKey) -> bool {
                     assert(signed_by(links@[kk], pubkeys@[kk]));
                 }
 //@end
+
+// the postcondition of verify_link_signature_thresholds_step as a predicate
+pub open spec fn step_links_ok(step: Step, links: Map<KeyId, Metablock>, pubkeys: Map<KeyId, PublicKey>, out: Map<KeyId, Metablock>) -> bool {
+    out.len() >= step.threshold
+    && forall|k: KeyId| #[trigger] out.contains_key(k) ==>
+        links.contains_key(k) && out[k] == links[k] && step.pub_keys@.contains(k)
+        && pubkeys.contains_key(k) && signed_by(links[k], pubkeys[k])
+}
+pub open spec fn links_of(all: Map<String, HashMap<KeyId, Metablock>>, name: String) -> Map<KeyId, Metablock> {
+    if all.contains_key(name) { all[name]@ } else { Map::empty() }
+}
+//@extract src/verifylib.rs fn:verify_link_signature_thresholds props=C02,C14
+//@subst G2 /let mut metadata_verified = HashMap::new\(\);/ => let mut metadata_verified: HashMap<String, HashMap<KeyId, Metablock>> = HashMap::new();
+//@contract ret=r
+    ensures
+        r is Ok ==> forall|i: int| 0 <= i < layout.steps@.len() ==> r->Ok_0@.contains_key(#[trigger] layout.steps@[i].name),   // [C02]
+        r is Ok ==> forall|name: String| #[trigger] r->Ok_0@.contains_key(name) ==> exists|j: int| 0 <= j < layout.steps@.len()
+            && layout.steps@[j].name == name
+            && step_links_ok(layout.steps@[j], links_of(steps_links_metadata@, name), layout.keys@, r->Ok_0@[name]@),   // [C02]
+//@before /let mut metadata_verified/
+    proof { fact_string_ext(); fact_keyid_key_model(); }
+//@loop 1 iter=it
+        invariant
+            forall|a: String, b: String| #![trigger a@, b@] a@ == b@ ==> a == b,
+            vstd::std_specs::hash::obeys_key_model::<String>(),
+            vstd::std_specs::hash::obeys_key_model::<KeyId>(),
+            it.seq().len() == layout.steps@.len(),
+            forall|i: int| 0 <= i < it.seq().len() ==> *(#[trigger] it.seq()[i]) == layout.steps@[i],
+            forall|i: int| 0 <= i < it.index() ==> metadata_verified@.contains_key(#[trigger] layout.steps@[i].name),
+            forall|name: String| #[trigger] metadata_verified@.contains_key(name) ==> exists|j: int| 0 <= j < layout.steps@.len()
+                && layout.steps@[j].name == name
+                && step_links_ok(layout.steps@[j], links_of(steps_links_metadata@, name), layout.keys@, metadata_verified@[name]@),
+//@end
 } // verus!
 fn main() {}
